@@ -583,6 +583,7 @@ class Interp:
             subs=tuple(unparse(x) for x in rest),
             sub_vals=tuple(sub_vals),
             base=bv,
+            mayc=bv.mayc,
         )
         if oid is not None:
             o = st.heap.get(oid)
@@ -733,6 +734,8 @@ class Interp:
             if key is None:
                 fr = self.frames[-1]
                 key = "opaque@%s:%s" % (fr.func.qual, unparse(node))
+                if self.loops:
+                    key += "@" + "/".join(l.tag for l in self.loops)
             while key.startswith("not (") and key.endswith(")"):
                 key = key[5:-1]
                 neg = not neg
@@ -791,7 +794,8 @@ class Interp:
                         if any(x.name.startswith("OFF_") for x in w.free_symbols):
                             w = None
                     offinfo[nm] = w
-                    self.emit("offset", s, st, name=nm, init=inits.get(nm), adv=w, off=offs.get(nm), first_adv=first_adv.get(nm), list_cx=cx, loop_kind=lk, peeled=peel)
+                    overwritten = bool(cur is not None and cur.kind == "num" and cur.sym is not None and nm in offs and offs[nm] not in cur.sym.free_symbols)
+                    self.emit("offset", s, st, name=nm, init=inits.get(nm), adv=w, off=offs.get(nm), first_adv=first_adv.get(nm), list_cx=cx, loop_kind=lk, peeled=peel, overwritten=overwritten, endval=cur.sym if (cur is not None and cur.kind == "num") else None)
             self.loops.pop()
             if st is None:
                 return None
@@ -870,7 +874,7 @@ class Interp:
         if isinstance(s.target, ast.Tuple) and isinstance(s.iter, ast.Call) and unparse(s.iter.func) == "enumerate":
             if isinstance(s.target.elts[0], ast.Name):
                 idx = s.target.elts[0].id
-        elif isinstance(s.target, ast.Name) and isinstance(s.iter, ast.Call) and unparse(s.iter.func) == "range":
+        elif isinstance(s.target, ast.Name) and isinstance(s.iter, ast.Call) and unparse(s.iter.func) in ("range", "np.arange", "numpy.arange"):
             idx = s.target.id
         assigned = set()
         tested = set()
@@ -900,6 +904,15 @@ class Interp:
                 cur = st.env.get(n.target.id)
                 if cur is not None and cur.kind == "num" and cur.sym is not None and cur.obj is None and (cur.sym.is_Integer or (cur.sym.is_integer and not cur.sym.is_Float)):
                     out.setdefault(n.target.id, []).append(n)
+            elif isinstance(n, ast.Assign) and len(n.targets) == 1 and isinstance(n.targets[0], ast.Name):
+                # x = <expr> inside the loop for an integer x bound before the loop and
+                # read in the body: a running offset that may (not) be accumulated
+                nm = n.targets[0].id
+                cur = st.env.get(nm)
+                if cur is not None and cur.kind == "num" and cur.sym is not None and cur.obj is None and cur.sym.is_Integer and not isinstance(n.value, ast.Constant):
+                    reads = [m for m in ast.walk(ast.Module(body=s.body, type_ignores=[])) if isinstance(m, ast.Name) and m.id == nm and isinstance(m.ctx, ast.Load)]
+                    if reads:
+                        out.setdefault(nm, []).append(n)
         return out
 
     def havoc_carried(self, s, carried, st, peeled):
@@ -963,12 +976,16 @@ class Interp:
                 return wrap(self._generic_elem(it, tag, s), tag)
 
             return ("cfglist", it.cx), elems
+        if it.kind == "arr" and isinstance(it.extra, tuple) and it.extra and it.extra[0] == "arange" and it.cfg:
+            it = Val("range", extra=(it.extra[1], it.extra[2]), cfg=True, dep=it.dep, cx=it.cx)
         if it.kind == "range":
             lo, hi = it.extra
             def elems(tag, lo=lo, hi=hi, it=it):
                 if tag == "first" and lo is not None:
                     return wrap(num(lo, cx=str(lo)), tag)
                 nm = unparse(s.target) if isinstance(s.target, ast.Name) else "i"
+                if self.needs_peel(s) and lo is not None and lo == 0:
+                    return wrap(num(sp.Symbol("%s_L%d" % (nm, s.lineno), integer=True, positive=True), cfg=it.cfg, cx=nm if it.cfg else None, dep=it.dep), tag)
                 return wrap(num(sp.Symbol("%s_L%d" % (nm, s.lineno), integer=True, nonnegative=True), cfg=it.cfg, cx=nm if it.cfg else None, dep=it.dep), tag)
 
             return ("range", it.cx or unparse(node)[:40]), elems
@@ -1312,6 +1329,7 @@ class Interp:
             cx=("%s[%s]" % (b.cx, unparse(n.slice))) if (b.cx and sv.cfg and len(b.cx) < 120) else None,
             dom=dict(b.dom),
             extra=("sub", b, n.slice, sv) if b.obj is not None else None,
+            mayc=b.mayc if is_view else frozenset(),
         )
         return res
 
